@@ -85,6 +85,7 @@ func gen(seed int64, n int, tier string) []interface{} {
 				c.Fresh = append(c.Fresh, j > 0 && r.Intn(2) == 0)
 			}
 		}
+		c.LongLine = r.Intn(12) == 0
 		out = append(out, c)
 	}
 	return out
